@@ -29,6 +29,9 @@ pub enum Op {
     OptionMark(usize, usize),
     /// clone, then mutate clone and original and compare (state preserving)
     CloneCheck,
+    /// the bitmap is copied with `clone_from` into another bitmap that is this many pages larger
+    /// and completely dirty, and the copy takes its place (state preserving)
+    CloneInto(usize),
 }
 
 impl Op {
@@ -58,6 +61,7 @@ impl Op {
             ("ArcSliceMark", 3) => Op::ArcSliceMark(a[0], a[1], a[2]),
             ("OptionMark", 2) => Op::OptionMark(a[0], a[1]),
             ("CloneCheck", 0) => Op::CloneCheck,
+            ("CloneInto", 1) => Op::CloneInto(a[0]),
             _ => return None,
         })
     }
@@ -125,7 +129,7 @@ impl Model {
                 let p = self.pages(o.wrapping_add(*o2).wrapping_add(*x), *l);
                 self.set.extend(p);
             }
-            Op::CloneCheck => {}
+            Op::CloneCheck | Op::CloneInto(_) => {}
         }
         None
     }
@@ -212,6 +216,14 @@ fn apply_real(bm: &mut AtomicBitmap, op: &Op, model_before: &Model) -> Result<()
                 return Err(("unit/not-clean".into(), "".into()));
             }
             *bm = some.unwrap();
+        }
+        Op::CloneInto(k) => {
+            let (bs, psz) = (model_before.byte_size, model_before.page);
+            let page = NonZeroUsize::new(psz).unwrap();
+            let mut dest = AtomicBitmap::new(bs + k * psz, page);
+            dest.set_addr_range(0, (bs + k * psz).max(1));
+            dest.clone_from(&*bm);
+            *bm = dest;
         }
         Op::CloneCheck => {
             let c = bm.clone();
@@ -343,6 +355,9 @@ fn alphabet(m: &Model, full: bool) -> Vec<Op> {
     v.push(Op::GetAndReset);
     v.push(Op::Reset);
     v.push(Op::CloneCheck);
+    v.push(Op::CloneInto(0));
+    v.push(Op::CloneInto(2));
+    v.push(Op::CloneInto(70));
     for k in [0, 1, p.saturating_sub(1), p, p + 1, 64 * p, 64 * p + 1] {
         v.push(Op::Enlarge(k));
     }
@@ -427,6 +442,9 @@ fn unmerged_histories(ctx: &Ctx, init: (usize, usize), depth: usize) {
         v.push(Op::ResetRange(0, p));
         v.push(Op::ResetBit(n.saturating_sub(1)));
         v.push(Op::CloneCheck);
+        v.push(Op::CloneInto(0));
+        v.push(Op::CloneInto(1));
+        v.push(Op::CloneInto(130));
         v
     }
     fn rec(ctx: &Ctx, init: (usize, usize), hist: &mut Vec<Op>, m: &Model, left: usize, t: &mut u64) {
@@ -700,7 +718,7 @@ fn boundary(ctx: &Ctx, pages: usize, page: usize, slack: usize, depth2: bool) {
 
 pub fn run(tier: Tier, replay: Option<String>) -> i32 {
     let ctx = crate::new_ctx("C09", tier, "model_checking", &replay);
-    ctx.set_rule("E1: BFS to an empty frontier over every public operation (full argument ranges 0..=bytes+2p plus values around isize::MAX/usize::MAX) on tiny AtomicBitmaps (<= 6 pages, page size 1..3, byte sizes +-1 around page multiples); state = complete concrete state (byte_size, page_size, set of dirty pages as decoded from the raw words); every transition is executed on the real bitmap, rebuilt by replaying the shortest history, and every observable (len, byte_size, is_bit_set, is_addr_set, dirty_at, slices, nested slices, raw words) is compared with a BTreeSet model. Plus all histories of 3 (thorough 4) operations over a reduced alphabet (single-page and past-the-end marks, enlarge, harvest, resets, clone) WITHOUT merging states, so that state kept beside the bits cannot hide behind the state key. Plus geometries at the top of the size range (byte sizes within a page of usize::MAX, page sizes up to usize::MAX; built directly and by enlarge) against 128-bit arithmetic. Plus depth-1/2 sweeps on word-boundary configurations (63..129 pages, page sizes 1,3,5,7,4096,4097).");
+    ctx.set_rule("E1: BFS to an empty frontier over every public operation (full argument ranges 0..=bytes+2p plus values around isize::MAX/usize::MAX) on tiny AtomicBitmaps (<= 6 pages, page size 1..3, byte sizes +-1 around page multiples); state = complete concrete state (byte_size, page_size, set of dirty pages as decoded from the raw words); every transition is executed on the real bitmap, rebuilt by replaying the shortest history, and every observable (len, byte_size, is_bit_set, is_addr_set, dirty_at, slices, nested slices, raw words) is compared with a BTreeSet model. Plus all histories of 3 (thorough 4) operations over a reduced alphabet (single-page and past-the-end marks, enlarge, harvest, resets, clone, clone_from into larger dirty bitmaps) WITHOUT merging states, so that state kept beside the bits cannot hide behind the state key. Plus geometries at the top of the size range (byte sizes within a page of usize::MAX, page sizes up to usize::MAX; built directly and by enlarge) against 128-bit arithmetic. Plus depth-1/2 sweeps on word-boundary configurations (63..129 pages, page sizes 1,3,5,7,4096,4097).");
     ctx.assume("successors with more than 6 pages (after enlarge) are checked but not expanded further in the closure; the boundary sweeps cover large bitmaps");
     if let Some(r) = ctx.replay_of.clone() {
         let c = &r["case"];
